@@ -685,6 +685,39 @@ fn scenario(s: Scn) -> ScenarioOut {
                                             }
                                         }
                                     }
+                                    // the implementation evaluates the conditions at different instants
+                                    // (membership and loop flag when the datagram is sent, bind address and
+                                    // connected-peer filter when it is handed over): under concurrent
+                                    // reconfiguration each condition may hold at its own instant of the window
+                                    let mut comp = snapshots[*sp].clone();
+                                    let mut peers: Vec<Option<SocketAddr>> = vec![];
+                                    for snap in &snapshots[*sp..=p] {
+                                        for (k, m) in snap {
+                                            let c = comp.entry(*k).or_insert_with(|| m.clone());
+                                            c.alive |= m.alive;
+                                            c.broadcast |= m.broadcast;
+                                            c.loop_ |= m.loop_;
+                                            c.groups.extend(m.groups.iter().copied());
+                                            if m.alive {
+                                                c.port = m.port;
+                                            }
+                                            if k == sock && !peers.contains(&m.connected) {
+                                                peers.push(m.connected);
+                                            }
+                                        }
+                                    }
+                                    for peer in peers {
+                                        if let Some(c) = comp.get_mut(sock) {
+                                            c.connected = peer;
+                                        }
+                                        if let Some((o, _)) = targets(&s, &ips, &comp, *sender, *dst, dstk).get(sock) {
+                                            if o == origin {
+                                                legit = true;
+                                                out.count("racy_receipts_legit_per_condition", 1);
+                                                break 'search;
+                                            }
+                                        }
+                                    }
                                 }
                             }
                         }
